@@ -16,6 +16,37 @@ from . import worlds
 from .worlds import bits, enc, class_fields, chain_lookup, Emit, REC
 
 
+class ScriptedRS:
+    """RandState stand-in (instrument I2): every draw is a logged choice point taken from a script;
+    unscripted draws take the lowest value.  clone() returns self so that set_randstate keeps the script."""
+
+    def __init__(self, script):
+        self.script = list(script)
+        self.pos = 0
+        self.log = []
+        self.rng = self
+
+    def clone(self):
+        return self
+
+    def randint(self, lo, hi):
+        lo, hi = int(lo), int(hi)
+        if hi < lo:
+            lo, hi = hi, lo
+        v = lo + (self.script[self.pos] if self.pos < len(self.script) else 0)
+        if v > hi:
+            v = hi
+        self.pos += 1
+        self.log.append((lo, hi, v))
+        return v
+
+    def rand_u(self):
+        return self.randint(0, 0xFFFFFFFFFFFFFFFF)
+
+    def rand_s(self):
+        return self.rand_u()
+
+
 class Injected(Exception):
     """user exception injected by the generated user code (C16)"""
 
@@ -160,10 +191,9 @@ class Session:
         lst = self.lookup(path)
         f = self.field_of(path)
         w, s = f["w"], f["signed"]
-        return {"index": [enc(int(lst[i]), w, s) for i in range(len(lst))],
-                "iter": [enc(int(x), w, s) for x in lst],
-                "size": [enc(int(x), w, s) for x in lst][:int(lst.size)] if int(lst.size) == len(lst)
-                        else [[9]] * int(lst.size)}
+        n = len(lst)
+        return {"len": n, "size": int(lst.size), "index": [enc(int(lst[i]), w, s) for i in range(n)],
+                "iter": [enc(int(x), w, s) for x in lst]}
 
     # ---------------------------------------------------------------- helpers
     def lookup(self, path):
@@ -373,7 +403,7 @@ class Session:
         try:
             ev["views"] = self.list_views(lst_path)
         except Exception as ex:
-            ev["views"] = {"error": [[9]]}
+            ev["views"] = {"len": -1, "size": -1, "index": [], "iter": []}
         self.emit(ev)
 
     # ---- calls
@@ -449,7 +479,7 @@ class Session:
                 try:
                     views[lp] = self.list_views(lp)
                 except Exception:
-                    views[lp] = {"error": [[9]]}
+                    views[lp] = {"len": -1, "size": -1, "index": [], "iter": []}
         ev["views"] = views
         self.cb_script = {}
         self.emit(ev)
@@ -536,6 +566,160 @@ class Session:
             ev["other_exc"] = others
         self.emit(ev)
 
+    # ---- I2: exhaustive draw-path exploration
+    def model_of(self, path):
+        m = re.match(r"(.*)\[(\d+)\]$", path)
+        if m and self.field_of(path)["kind"] == "list":
+            return self.lookup(m.group(1)).get_model().field_l[int(m.group(2))]
+        if "." in path:
+            owner, name = path.rsplit(".", 1)
+            with vsc.raw_mode():
+                return getattr(self.lookup(owner), name).get_model()
+        return self.tops[path].get_model()
+
+    def restore(self, saved):
+        cur = self.project()
+        for p_, b_ in saved["v"].items():
+            if cur["v"].get(p_) != b_ and len(b_) == self._w(p_):
+                try:
+                    self.assign(p_, b_)
+                except Exception:
+                    pass
+
+    def op_explore(self, op):
+        from fractions import Fraction
+        import random as _random
+        from vsc.impl import verif_hook
+        self.cb_script = {}
+        self.cb_log = []
+        call = op["call"]
+        paths = op["paths"]
+        maxp = op.get("max_paths", 30000)
+        saved = self.project()
+        id2path = {}
+        for p in paths:
+            try:
+                id2path[id(self.model_of(p))] = p
+            except Exception:
+                pass
+        outcomes, stack, n, glob, other = {}, [[]], 0, [0], 0
+        complete = True
+        hook = {}
+
+        def sink(kind, payload):
+            if kind == "solve_begin" and "bounds" not in hook:
+                hook["bounds"] = {id2path[id(f)]: r for f, r, c in payload["bound_fields"] if id(f) in id2path}
+                hook["order"] = [rs["order"] for rs in payload["randsets"] if rs["order"]]
+        orig = {k: getattr(_random, k) for k in ("randint", "random", "randrange", "sample", "choice", "getrandbits", "shuffle")}
+
+        def spy(name):
+            def f(*a, **kw):
+                glob[0] += 1
+                return orig[name](*a, **kw)
+            return f
+        verif_hook.sink = sink
+        try:
+            while stack:
+                script = stack.pop()
+                self.restore(saved)
+                rs = ScriptedRS(script)
+                c2 = dict(call)
+                if call["kind"] in ("method", "with"):
+                    self.lookup(call["roots"][0]).set_randstate(rs)
+                else:
+                    c2["flags"] = dict(call.get("flags", {}), randstate=rs)
+                for k in orig:
+                    setattr(_random, k, spy(k))
+                try:
+                    e = self.guarded(lambda: self._do_call(c2))
+                finally:
+                    for k in orig:
+                        setattr(_random, k, orig[k])
+                if e == "none":
+                    cur = self.project()["v"]
+                    res = tuple(worlds.unbits(cur[p]) for p in paths)
+                elif e == "SolveFailure":
+                    res = "FAIL"
+                else:
+                    res = "FAIL"
+                    other += 1
+                n += 1
+                w = Fraction(1)
+                for lo, hi, v in rs.log:
+                    w /= (hi - lo + 1)
+                for pos in range(len(script), len(rs.log)):
+                    lo, hi, v = rs.log[pos]
+                    if hi - lo > 4096:
+                        complete = False          # a draw over a huge range cannot be enumerated
+                        continue
+                    for alt in range(1, hi - lo + 1):
+                        stack.append([x[2] - x[0] for x in rs.log[:pos]] + [alt])
+                outcomes[res] = outcomes.get(res, 0) + w
+                if n >= maxp:
+                    complete = False
+                    break
+        finally:
+            verif_hook.sink = None
+        if call["kind"] in ("method", "with"):
+            self.lookup(call["roots"][0]).set_randstate(vsc.RandState.mkFromSeed(1))
+        self.restore(saved)
+        big = 1 << 30
+
+        def fr(x):
+            x = Fraction(x)
+            return [x.numerator, x.denominator]
+        mass = sum(outcomes.values())
+        marg = []
+        for j in range(len(paths)):
+            m = {}
+            for o_, pr in outcomes.items():
+                if o_ != "FAIL":
+                    m[o_[j]] = m.get(o_[j], 0) + pr
+            marg.append([{"v": v, "p": fr(pr)} for v, pr in sorted(m.items())])
+        dist = [{"fail": o_ == "FAIL", "o": (list(o_) if o_ != "FAIL" else []), "p": fr(pr)}
+                for o_, pr in sorted(outcomes.items(), key=lambda kv: str(kv[0]))]
+        allfr = [d["p"] for d in dist] + [x["p"] for m in marg for x in m] + [fr(mass)]
+        if any(a >= big or b >= big for a, b in allfr):
+            complete = False
+            for d in dist:
+                d["p"] = [1 if d["p"][0] > 0 else 0, 1]
+            for m in marg:
+                for x in m:
+                    x["p"] = [1 if x["p"][0] > 0 else 0, 1]
+        ev = {"op": "explore", "call": self._call_rec(call), "paths": paths, "complete": bool(complete), "npaths": n,
+              "glob": glob[0], "other": other, "mass": fr(mass) if complete else [1, 1], "dist": dist, "marg": marg,
+              "bounds": hook.get("bounds", {}), "order": hook.get("order", []),
+              "dist_free": op.get("dist_free", []), "uniform": op.get("uniform", []),
+              "memo_put": op.get("memo_put", ""), "memo_eq": op.get("memo_eq", ""),
+              "pre": saved, "post": self.project(), "stk": stk(), "exc": "none"}
+        self.emit(ev)
+
+    def op_select(self, op):
+        """distselect / randselect observed for every value the generator can return (C15)"""
+        import random as _random
+        weights = op["weights"]
+        total = sum(weights)
+        results, called = [], []
+        orig = _random.randint
+        exc = "none"
+        for seed in range(1, total + 1):
+            _random.randint = lambda a, b, _s=seed: _s
+            try:
+                if op["kind"] == "distselect":
+                    results.append(vsc.distselect(list(weights)) + 1)
+                else:
+                    hit = []
+                    vsc.randselect([(w, (lambda i=i: hit.append(i + 1))) for i, w in enumerate(weights)])
+                    results.append(hit[0] if len(hit) == 1 else 0)
+                    called.append(hit[0] if len(hit) == 1 else 0)
+            except Exception as e:
+                exc = exc_name(e)
+                results.append(0)
+            finally:
+                _random.randint = orig
+        self.emit({"op": "select", "kind": op["kind"], "weights": weights, "results": results,
+                   "called": called if op["kind"] == "randselect" else results, "exc": exc})
+
     def _w(self, p):
         f = self.field_of(p)
         return 32 if f["kind"] == "enum" else f["w"]
@@ -552,6 +736,9 @@ def reset_soft():
 
 
 def run_scenario(scn, seed=0):
+    import random as _random
+    import zlib
+    _random.seed(zlib.crc32(scn["id"].encode()) ^ 0x5eed)     # Python's global generator seeds every default RandState
     s = Session(scn, seed)
     try:
         events = s.run()
